@@ -185,6 +185,9 @@ async def sc_bootstrap(loop: Any, env: Env) -> None:
                             DispersyBootstrapper([nodes[1].address], [], bootstrap_timeout=2.0)]
     env.target(nodes[0], ovs[0])
     env.t(lambda: ovs[0].bootstrap())
+    # a second walker of the same overlay asks for peers in the same tick (IPv8.on_tick steps all strategies back to
+    # back): the bootstrappers are still initialising
+    env.t(lambda: ovs[0].bootstrap())
     await asyncio.sleep(0.2)
     # another node's beacon arrives on the broadcast socket, then a packet of the overlay arrives there
     for t in loop.transports:
